@@ -221,6 +221,11 @@ class Component(CaselessDict):
         else:
             klass = types_factory.for_property(name)
             obj = klass(value)
+        if name.lower() == 'trigger' and \
+                isinstance(getattr(obj, 'dt', None), datetime) and \
+                'VALUE' not in obj.params:
+            # RFC 5545: the default value type of TRIGGER is DURATION
+            obj.params['VALUE'] = 'DATE-TIME'
         if parameters:
             if not hasattr(obj, "params"):
                 obj.params = Parameters()
@@ -649,7 +654,7 @@ def create_single_property(
             return
         if not isinstance(value, value_type):
             raise TypeError(f"Use {' or '.join(t.__name__ for t in value_type)}, not {type(value).__name__}.")
-        self[prop] = vProp(value)
+        self[prop] = self._encode(prop, vProp(value))
         if prop in self.exclusive:
             for other_prop in self.exclusive:
                 if other_prop != prop:
